@@ -277,6 +277,11 @@ int main() {
       if (kv.second.unique_label.empty()) { std::cout << "PREDICATE empty mode label\n"; return 3; }
       if (bxdecay0::dbd_mode_from_label(kv.second.unique_label) != kv.first) { std::cout << "PREDICATE label does not map back: " << kv.second.unique_label << "\n"; return 3; }
       if (kv.second.dbd_mode != kv.first) { std::cout << "PREDICATE record/key mismatch\n"; return 3; }
+      { // the legacy Decay0 mode of a record is one of the enumerators: 'not applicable', or within the legacy range
+        const int lg = (int)kv.second.legacy_modebb;
+        if (!(lg == (int)bxdecay0::LEGACY_MODEBB_NA || lg == (int)bxdecay0::LEGACY_MODEBB_UNDEF || (lg >= (int)bxdecay0::LEGACY_MODEBB_MIN && lg <= (int)bxdecay0::LEGACY_MODEBB_MAX))) {
+          std::cout << "PREDICATE legacy mode out of range " << lg << "\n"; return 3; }
+      }
     }
     // what was loaded is then used: the accessors of the mode catalogue for every identifier an application may hold (a mode the
     // loaded list does not contain must be answered by an exception or a sentinel, never by reading past the catalogue)
@@ -344,7 +349,7 @@ def catalogue_cases(chk, root, ncases):
     mlines = orig["dbd_modes.lis"].split(b"\n")
     recs = [k for k, l in enumerate(mlines) if l.strip() and not l.lstrip().startswith(b"#")]
     for col in (0, 2):
-        for hv in hostile + [b"25", b"-3", b"999", b"21.5"]:
+        for hv in hostile + [b"25", b"-3", b"999", b"21.5", b"21", b"22", b"24", b"20", b"1"]:
             ls = list(mlines)
             k = recs[rng.randint(0, len(recs) - 1)]
             toks = ls[k].split()
